@@ -117,7 +117,7 @@ def _r03a_push_form(ctx, F, writers):
     ctx.check(okc, 'R03a', PC, 'extend.map', ap.loc(P), 'each chunk contributes (its hash, its data length)')
     ctx.check(c05.latches_guarded(ap, lp, ap.cfg.out_edges(P)), 'R03a', PC, 'extend.every', ap.loc(P), 'every iteration pushes (no chunk is skipped)', 'an iteration of the recording loop can skip the push')
     errb = ap.error_blocks()
-    none = set(ap.dest_variant_edges(nx[0]).get('0', [])) if nx else set()
+    none = set(ap.none_edges(ap.dest_variant_edges(nx[0]))) if nx else set()
     exits = {(x, y) for x in blks for y in ap.cfg.succ[x] if y not in blks and y not in errb and not ap.blocks[y].get('cl')}
     ctx.check(bool(none) and exits <= none, 'R03a', PC, 'extend.exhaust', ap.loc(P), 'the recording loop is left only when the chunks are exhausted', 'the recording loop can stop before all chunks were recorded')
     oks_ = [(b, si) for (b, si, k, e) in ap.ret_sites() if k != 'err']
